@@ -4,6 +4,7 @@ import Zc.Model.Responder
 import Zc.Model.Lookup
 import Zc.Model.Sched2
 import Zc.Model.QueryGen
+import Zc.Model.NameText
 /-! # C15 — the downstream of the listener, composed from the models of the other properties
 
 `Zc.Survive.Down` left everything behind the listener uninterpreted.  Here it is instantiated with
@@ -25,7 +26,8 @@ lookups (user `RecordUpdateListener`s), `async_notify_all` / future wake-ups,
 the `_QueryResponse` routing with the question history, and `MulticastOutgoingQueue.async_add`.
 
 Text layer: decoded names become `str` (`textOfName`), registry/cache names become wire labels again
-(`labelsOfText`).  None of the theorems depends on properties of these two functions.
+(`labelsOfText`); both are the text-layer model `Zc.NameText` wrapped into `String`, and the identity the
+timer-block theorems need of them (`TextGlue`) is proved in `Proofs/NameTextGlue.lean`.
 No Mathlib. -/
 namespace Zc.Survive.Comp
 open Zc Zc.Wire Zc.Survive
@@ -33,15 +35,14 @@ open Zc Zc.Wire Zc.Survive
 /-! ## text layer -/
 
 /-- `label.decode('utf-8', 'replace')` as a `String` -/
-def textOfLabel (l : Label) : String := String.ofList ((Utf8.decodeReplace l).map Char.ofNat)
+def textOfLabel (l : Label) : String := String.ofList (NameText.decodeLabel l)
 
-/-- `'.'.join(labels) + '.'` -/
-def textOfName (n : WName) : String := ".".intercalate (n.map textOfLabel) ++ "."
+/-- `'.'.join(labels) + '.'`: `_read_name`'s text, by the text-layer model (`Zc.NameText.textOfLabels`) -/
+def textOfName (n : WName) : String := String.ofList (NameText.textOfLabels n)
 
-/-- what `write_name` does with a `str`: drop one trailing dot, `split('.')`, UTF-8 encode -/
-def labelsOfText (s : String) : WName :=
-  let t := if s.endsWith "." then (s.dropEnd 1).toString else s
-  (t.splitOn ".").map (fun x => x.toUTF8.toList)
+/-- what `write_name` does with a `str`: drop one trailing dot, `split('.')`, UTF-8 encode — the text-layer
+model's `Zc.NameText.labelsOfText` (proved against the `str`-keyed `write_name` in `Proofs/NameText.lean`) -/
+def labelsOfText (s : String) : WName := NameText.labelsOfText s.toList
 
 /-- a decoded record as the `DNSRecord` object the record manager sees (`created = msg.now`) -/
 def recOfW (now : Ms) (w : WRecord) : Option Rec :=
